@@ -7,7 +7,9 @@
 //! processing order, `R x ;` `remove(x)`, `D x d f d f .. ;` `insert_deps(x, ds)`
 //! with `f` = 1 iff the dep was already finished, `E len ;` final `len()`.
 //! Items are numbered in order of first appearance; `gN` global, `lN` lambda,
-//! a trailing `'` marks a location with comptime arguments.
+//! a trailing `'` marks a location with comptime arguments.  `N id=name .. ;` (last)
+//! gives order-independent names: `file::name` for a global, `L:file::name` for the lambda
+//! that is the body of that global, `L:?` for any other lambda.
 use hir::common::ConcreteLoc;
 use rustc_hash::{FxHashMap, FxHashSet};
 
@@ -55,6 +57,18 @@ impl VerifTrace {
         self.out.push_str(" ; ");
     }
 
+    pub(crate) fn names(&mut self, f: impl Fn(ConcreteLoc) -> String) {
+        let mut v: Vec<(usize, ConcreteLoc)> = self.ids.iter().map(|(l, i)| (*i, *l)).collect();
+        v.sort_by_key(|x| x.0);
+        self.out.push('N');
+        for (_, l) in v {
+            let id = self.id(l);
+            let n = f(l).replace([' ', ';', '='], "_");
+            self.out.push_str(&format!(" {}={}", id, n));
+        }
+        self.out.push_str(" ; ");
+    }
+
     pub(crate) fn end(&mut self, len: usize) {
         self.out.push_str(&format!("E {} ; ", len));
     }
@@ -69,4 +83,19 @@ impl Drop for VerifTrace {
             }
         }
     }
+}
+
+thread_local! {
+    static UNSAFE_LOG: std::cell::RefCell<Vec<(ConcreteLoc, u8)>> = const { std::cell::RefCell::new(Vec::new()) };
+}
+
+/// C07: the unsafe-tracking loop of `InferenceCtx::finish` reports, for every element of
+/// `all_finished_locations` in iteration order, 0 = safe, 1 = unsafe, 2 = skipped (extern).
+pub(crate) fn unsafe_log(loc: ConcreteLoc, verdict: u8) {
+    UNSAFE_LOG.with(|l| l.borrow_mut().push((loc, verdict)));
+}
+
+/// Returns and clears the log of the last `finish` call(s) on this thread.
+pub fn take_unsafe_log() -> Vec<(ConcreteLoc, u8)> {
+    UNSAFE_LOG.with(|l| std::mem::take(&mut *l.borrow_mut()))
 }
